@@ -158,10 +158,13 @@ Inductive sub : anode -> anode -> Prop :=
 | sub_false m n sp c t f : In n f -> sub m n -> sub m (NIf sp c t (Some f))
 | sub_asm m n p e asp body : In e (exprs_of p) -> In (asp, body) (gexpr_payloads e) -> In n body -> sub m n -> sub m p.
 
-(* nest_ge k nodes: the node list contains a chain of k nested #if TRUE arms (braced blocks); false arms and asm blocks
-   are traversed without counting (an `#else { }` block also counts in the code's counter, so this is a lower bound) *)
+(* nest_ge k nodes: the node list contains a chain of k nested blocks that the code counts in block_nesting_depth:
+   #if TRUE arms (ng_true) and asm blocks inside expressions (ng_asm_s); false arms are traversed without counting (an
+   `#else { }` block also counts in the code's counter, `#elif` does not, and the AST cannot tell them apart: a lower
+   bound), and ng_asm lets a chain pass an asm block without counting it (so every shorter chain is a chain too) *)
 Inductive nest_ge : nat -> list anode -> Prop :=
 | ng_zero l : nest_ge 0 l
 | ng_true k sp c tr fl l : In (NIf sp c tr fl) l -> nest_ge k tr -> nest_ge (S k) l
 | ng_false k sp c tr fa l : In (NIf sp c tr (Some fa)) l -> nest_ge k fa -> nest_ge k l
-| ng_asm k n e asp body l : In n l -> In e (exprs_of n) -> In (asp, body) (gexpr_payloads e) -> nest_ge k body -> nest_ge k l.
+| ng_asm k n e asp body l : In n l -> In e (exprs_of n) -> In (asp, body) (gexpr_payloads e) -> nest_ge k body -> nest_ge k l
+| ng_asm_s k n e asp body l : In n l -> In e (exprs_of n) -> In (asp, body) (gexpr_payloads e) -> nest_ge k body -> nest_ge (S k) l.
